@@ -9,14 +9,14 @@ FORMS_Q = {"ValueOpts": '{"absent", "a_lz", "icx_up"}', "NidOpts": '{"absent", "
            "FromOpts": '{"canon", "upper"}', "ToOpts": '{"canon", "noprefix", "cx"}', "DataOpts": '{"absent"}',
            "DTypeOpts": '{"absent"}', "MemoOpts": "{FALSE, TRUE}", "HashOpts": "{FALSE}"}
 FORMS_T = {"ValueOpts": '{"absent", "null", "0_lz", "a_lzup", "icx_up"}', "NidOpts": '{"absent", "1", "a_lz"}',
-           "NonceOpts": '{"absent", "null", "a_up"}', "StepOpts": '{"1f4", "1f4_up", "icx_lz"}',
+           "NonceOpts": '{"absent", "null", "a_up"}', "StepOpts": '{"1f4_up", "icx_lz"}',
            "TsOpts": '{"icx", "icx_lz"}', "FromOpts": '{"canon", "upper", "noprefix"}',
            "ToOpts": '{"canon", "upper", "noprefix", "cx"}', "DataOpts": '{"absent"}',
            "DTypeOpts": '{"absent"}', "MemoOpts": "{FALSE, TRUE}", "HashOpts": "{FALSE}"}
 DATA_Q = {"ValueOpts": '{"absent", "a"}', "NidOpts": '{"1"}', "NonceOpts": '{"absent", "1"}', "StepOpts": '{"1f4"}',
           "TsOpts": '{"icx"}', "FromOpts": '{"canon"}', "ToOpts": '{"canon"}', "DataOpts": ALL_DATA,
           "DTypeOpts": '{"absent", "message", "call", "patch"}', "MemoOpts": "{FALSE}", "HashOpts": "{FALSE, TRUE}"}
-DATA_T = {"ValueOpts": '{"absent", "a", "icx"}', "NidOpts": '{"absent", "1"}', "NonceOpts": '{"absent", "1"}',
+DATA_T = {"ValueOpts": '{"absent", "icx"}', "NidOpts": '{"absent", "1"}', "NonceOpts": '{"absent", "1"}',
           "StepOpts": '{"1f4"}', "TsOpts": '{"icx"}', "FromOpts": '{"canon"}', "ToOpts": '{"canon", "cx"}',
           "DataOpts": ALL_DATA, "DTypeOpts": '{"absent", "message", "call", "patch"}', "MemoOpts": "{FALSE, TRUE}",
           "HashOpts": "{FALSE, TRUE}"}
@@ -76,15 +76,15 @@ def run(ctx):
             ctx.check_coverage(r, ["ParseJSON", "Bytes", "ParseStored", "ToJSON", "CompareWith"])
         ctx.exhaustive = True
         # 2. cases: all maximal conversion paths and all id comparisons for every descriptor (BFS) ...
-        #    (id comparisons only in the data space in the quick tier)
+        #    (id comparisons only in the payload space)
         cases = []
-        for cs, cmp in ((forms, ctx.pick("FALSE", "TRUE")), (data, "TRUE")):
+        for cs, cmp in ((forms, "FALSE"), (data, "TRUE")):
             cases += ctx.behaviours("data", "Gen_TxRepr", "Gen_TxRepr.cfg",
                                     constants=dict(cs, MaxOps=4, Depth=4, Compare=cmp), timeout=2400)
         # ... + random descriptors of the mixed space with random paths
         cases += ctx.behaviours("data", "Gen_TxRepr", "Gen_TxRepr.cfg",
                                 constants=dict(ctx.pick(MIX_Q, MIX), MaxOps=4, Depth=4, Compare="TRUE"),
-                                simulate="num=%d" % ctx.pick(100, 2000), depth=6, seed=ctx.seed, timeout=2400)
+                                simulate="num=%d" % ctx.pick(100, 300), depth=6, seed=ctx.seed, timeout=2400)
     inp = ctx.path("in", "cases.ndjson")
     with open(inp, "w") as fh:
         for b in cases:
